@@ -1,10 +1,10 @@
-\* thorough, count part: 4 declared methods two of which share their full name (overloads), call lists <= 3 over 4 targets... kept at <= 2 (194481 models)
+\* thorough, count part: 4 declared methods two of which share their full name (overloads), call lists of length <= 2 over the three declared keys (28 561 models)
 SPECIFICATION Spec
 CONSTANTS
   Part = "count"
   Repaired = TRUE
   MaxCalls = 2
-  Targets = 4
+  Targets = 3
   WithOverload = TRUE
   PreToks = {"public", "private", "protected", "static", "final", "abstract", "synchronized"}
   MaxPre = 0
